@@ -394,7 +394,14 @@ static std::string opt_kind(const V *p) {
     return p == nullptr ? std::string("~") : num((unsigned)p->Type());
 }
 
-static const std::vector<std::vector<uint64_t>> PROBE = {{}, {97}, {98}, {97, 97}, {97, 98}, {49}};
+// keys probed with GetValue(key, length) / GetValue(StringView) on every root (objects: member lookup; arrays: the key must be
+// a plain decimal index): "", a, b, aa, ab, 1, 0, 00, 007, 2, ":", "/", 1a, " 1", +1, -0, 4294967295, 4294967296, 4294967297,
+// 99999999999 (11 digits), 00000000001 (11 digits), 0000000001 (10 digits), UTF-8 of U+0661 and of U+0131 (digit look-alikes)
+static const std::vector<std::vector<uint64_t>> PROBE = {
+    {}, {97}, {98}, {97, 97}, {97, 98}, {49}, {48}, {48, 48}, {48, 48, 55}, {50}, {58}, {47}, {49, 97}, {32, 49}, {43, 49}, {45, 48},
+    {52, 50, 57, 52, 57, 54, 55, 50, 57, 53}, {52, 50, 57, 52, 57, 54, 55, 50, 57, 54}, {52, 50, 57, 52, 57, 54, 55, 50, 57, 55},
+    {57, 57, 57, 57, 57, 57, 57, 57, 57, 57, 57}, {48, 48, 48, 48, 48, 48, 48, 48, 48, 48, 49}, {48, 48, 48, 48, 48, 48, 48, 48, 48, 49},
+    {217, 161}, {196, 177}};
 
 static std::string summary(const V *roots, const V &v) {
     std::string s;
